@@ -7,7 +7,7 @@ between the first and the second half of the stream.
 """
 from __future__ import annotations
 
-from vf.gen import hdlc_gen, p1_gen
+from vf.gen import hdlc_gen, p1_gen, splits
 from vf.mon import deepsize, hdlc_mon, p1_mon
 from vf.ref import p1_ref
 
@@ -18,7 +18,7 @@ P1_CONST = 48 * 1024
 RULE = (
     "run = (reader, pattern, chunk size): HDLC patterns {all flags, flag + short junk, flag + lone escape, valid frames back to back (two flags / one shared flag), never-ending frame, "
     "frame longer than its length field followed by endless flags, random bytes} under two configurations; P1 patterns {'/' ident lines without '!', '/' + bytes without LF, '////..' and '/abc/abc..' without LF, "
-    "ident line + endless data lines, ident line + endless bytes without LF, ever-changing '/' lines, valid readouts back to back, random ASCII, random bytes, text without '/' and LF}; chunk sizes {1 (first 128 KiB), 64, 4096, 65536}; stream length 1 MiB (quick) / 16 MiB (thorough). "
+    "ident line + endless data lines, ident line + endless bytes without LF, ever-changing '/' lines, valid readouts back to back, random ASCII, random bytes, text without '/' and LF}; chunk sizes {1 (first 128 KiB), 64, 4096, 65536} and delimiter-aligned calls (ending right after every LF / 7th LF for P1, every flag / 7th flag for HDLC); stream length 1 MiB (quick) / 16 MiB (thorough). "
     f"oracle: deep size after read() <= {HDLC_CONST} (HDLC) / {P1_CONST} (P1) + 3 x chunk bytes at every sample, and max over the second half <= 1.25 x max over the first half + chunk + 1 KiB (jittered sampling, so that a bounded saw-tooth is not mistaken for growth). "
     "evaluations = read() calls made; distinct non-trivial = distinct (reader, configuration, pattern, chunk size) runs with >= 16 size samples."
 )
@@ -29,10 +29,10 @@ ASSUMPTIONS = [
 WATCHDOG_S = {"quick": 900, "thorough": 7200}
 
 HDLC_PATTERNS = ("all_flags", "flag_short_junk", "flag_lone_escape", "valid_frames", "never_ending_frame", "random_bytes", "overlong_frame_then_flags",
-                 "single_flag_between_frames")
+                 "single_flag_between_frames", "escaped_pairs_forever", "escape_fill_forever")
 P1_PATTERNS = ("ident_lines_without_end", "slash_without_lf", "ident_then_endless_data", "valid_readouts", "random_ascii", "random_bytes", "text_without_slash_and_lf",
                "slashes_without_lf", "slash_words_without_lf", "ident_then_no_lf", "varying_slash_lines")
-CHUNKS = (1, 64, 4096, 65536)
+CHUNKS = (1, 64, 4096, 65536, "delim1", "delim7")  # delimN: a call ends right after every N-th LF (P1) / flag (HDLC)
 
 
 def plan(tier: str, seed: int) -> list[dict]:
@@ -41,10 +41,10 @@ def plan(tier: str, seed: int) -> list[dict]:
     for pat in HDLC_PATTERNS:
         for cfg in ((False, True), (True, False)):
             for ch in CHUNKS:
-                shards.append({"reader": "hdlc", "cfg": list(cfg), "pattern": pat, "chunk": ch, "total": total if ch > 1 else 128 * 1024})
+                shards.append({"reader": "hdlc", "cfg": list(cfg), "pattern": pat, "chunk": ch, "total": total if ch != 1 else 128 * 1024})
     for pat in P1_PATTERNS:
         for ch in CHUNKS:
-            shards.append({"reader": "p1", "cfg": [0, 0], "pattern": pat, "chunk": ch, "total": total if ch > 1 else 128 * 1024})
+            shards.append({"reader": "p1", "cfg": [0, 0], "pattern": pat, "chunk": ch, "total": total if ch != 1 else 128 * 1024})
     # group small runs so that there are not 76 interpreter starts for quick
     if tier == "quick":
         grouped = [{"runs": shards[i::16]} for i in range(16)]
@@ -73,6 +73,10 @@ def make_stream(rng, reader: str, cfg, pattern: str, total: int) -> bytes:
             ids = hdlc_gen.IdSource(rng)
             unit = b"".join(b"\x7e" + hdlc_gen.on_wire(hdlc_gen.good_frame(rng, ids, max_info=120, want_info=True)[0], cfg[0]) for _ in range(300))
             return (unit * (total // len(unit) + 1))[:total]
+        if pattern == "escaped_pairs_forever":
+            return (b"\x7e\xa7\xff\x03\x03\x13" + b"\x7d\x5e" * (total // 2))[:total]
+        if pattern == "escape_fill_forever":
+            return (b"\x7e\xa7\xff\x03\x03\x13" + b"\x7d" * total)[:total]
         if pattern == "never_ending_frame":
             body = bytes(b if b != 0x7E else 0x7F for b in rng.randbytes(65536))
             return (b"\x7e\xa7\xff\x03\x03\x13" + body * (total // len(body) + 1))[:total]
@@ -120,7 +124,20 @@ def one_run(spec: dict, ctx) -> None:
     reader = hdlc_mon.new_reader(cfg) if spec["reader"] == "hdlc" else p1_mon.new_reader()
     stream = make_stream(rng, spec["reader"], cfg, spec["pattern"], spec["total"])
     chunk = spec["chunk"]
-    n_calls = (len(stream) + chunk - 1) // chunk
+    if isinstance(chunk, str):
+        every = int(chunk[5:])
+        delim = 0x7E if spec["reader"] == "hdlc" else 0x0A
+        pieces = splits.chunks(stream, splits.aligned_spec(stream, delim, every))
+        # a stream without the delimiter would be one huge call: fall back to 4096-byte calls for the remainder
+        chunks_list = []
+        for pc in pieces:
+            chunks_list.extend(pc[i : i + 4096] for i in range(0, len(pc), 4096)) if len(pc) > 4096 else chunks_list.append(pc)
+        chunk_label = chunk
+        chunk = max(len(c) for c in chunks_list)
+    else:
+        chunks_list = None
+        chunk_label = chunk
+    n_calls = len(chunks_list) if chunks_list is not None else (len(stream) + chunk - 1) // chunk
     every = max(1, n_calls // 256)
     const = HDLC_CONST if spec["reader"] == "hdlc" else P1_CONST
     bound = const + 3 * chunk
@@ -130,7 +147,7 @@ def one_run(spec: dict, ctx) -> None:
     case = dict(spec)
     for i in range(n_calls):
         try:
-            msgs = reader.read(stream[i * chunk : (i + 1) * chunk])
+            msgs = reader.read(chunks_list[i] if chunks_list is not None else stream[i * chunk : (i + 1) * chunk])
             returned += len(msgs)
             del msgs
         except Exception as ex:
@@ -143,12 +160,12 @@ def one_run(spec: dict, ctx) -> None:
             next_sample = i + max(1, rng.randint(every // 2, every + every // 2))
     label = f"{spec['reader']}:{spec['pattern']}"
     worst = max(s for _, s in samples)
-    ctx.maximum(f"max_deep_size[{label},chunk={chunk}]", worst)
+    ctx.maximum(f"max_deep_size[{label},chunk={chunk_label}]", worst)
     ctx.count("read_calls", n_calls)
     ctx.count("bytes_fed", len(stream))
     ctx.count("size_samples", len(samples))
     ctx.count("messages_returned", returned)
-    ctx.case(f"{label}:{cfg}:{chunk}", len(samples) >= 16, n_calls)
+    ctx.case(f"{label}:{cfg}:{chunk_label}", len(samples) >= 16, n_calls)
     over = [(i, s) for i, s in samples if s > bound]
     if over:
         i, s = over[0]
